@@ -112,3 +112,31 @@ func VerifH_C02_TwoNames_S16() {
 	}
 	vRoundTrip(m)
 }
+
+// VerifH_C02_PointerLimit: compression pointers only have 14 bits. A message larger than 16 KiB (stream
+// transports) whose names are written around offset 0x3FFF must still round-trip octet-exactly: a big TXT-typed
+// record pushes the owner name of the following CNAME to every offset 0x3FF9..0x4003, so that its labels start
+// before, at and after the last offset a pointer can express; the CNAME target (any of 6 shapes, arbitrary
+// octets) may or may not share a suffix with it.
+func VerifH_C02_PointerLimit_S3() {
+	verifrt.Unwind(60)
+	sh := verifrt.Shard()
+	m := NewMsg()
+	m.Header = Header{Response: true, RecursionAvailable: true} // fixed: the header is not the subject here
+	q := NewQuestion()
+	q.Name = vName("q.name", vShapes[1])
+	q.Type, q.Class = TypeCNAME, 1
+	m.Questions = append(m.Questions, q) // header 12 + question 7 = 19
+	start := 0x3FF9 + verifrt.Choose("delta", 11)
+	pad := NewRaw()
+	pad.Type, pad.Class, pad.TTL = TypeTXT, 1, 1
+	pad.Data = pool.GetBuf(start - 19 - 11) // root owner: the record takes 11+len(Data)
+	pad.Data[0] = verifrt.Byte("pad.first")
+	pad.Data[len(pad.Data)-1] = verifrt.Byte("pad.last")
+	m.Answers = append(m.Answers, pad)
+	r1 := NewNAME()
+	r1.ResourceHdr = ResourceHdr{Name: vName("r1.owner", [][]int{{1, 1}, {2, 1}, {1, 1, 1}}[sh]), Type: TypeCNAME, Class: 1, TTL: verifrt.U32("r1.ttl")}
+	r1.NameData = vNameAny("r1.rdname", 6)
+	m.Answers = append(m.Answers, r1)
+	vRoundTrip(m)
+}
